@@ -57,6 +57,9 @@ BUILT["C15"]=("exhaustive enumeration of binary tree shapes and chains against a
 BUILT["C16"]=("bounded-exhaustive enumeration of output types / key forms / networks / indices against byte-level references",
         "Every output type x key form x network and every B term up to the node bound inside sh/wsh/sh-wsh/tr: scriptPubKey, address, explicit_script, script_code and unsigned_script_sig equal byte-level references and a spend signed over script_code() verifies on the reference Script machine; xpub key expressions x indices equal independent BIP32 derivation with the documented errors; all key permutations of sortedmulti give one scriptPubKey; multipath split equals textual selection.",
         "3 C16")
+BUILT["C14"]=("explicit-state breadth-first search over PSBT operation histories (states = real Psbt values deduplicated by BIP174 serialisation)",
+        "For each descriptor pair of a 15-member family, ALL histories of update / add-signature / add-preimage / finalize / finalize_mall / finalize_inp / finalize_inp_mall up to the depth bound (most pairs reach closure) are executed on real two-input PSBTs; on every transition: finalized inputs validate on the reference Script machine, final inputs are never altered by finalization, a failing finalize leaves the input byte-identical, idempotence, result consistency, order independence of data actions (one state per action set), extract succeeds iff all inputs are final and the extracted transaction validates, update records scripts / origins / taproot data that verify, sighash_msg equals the independent digest.",
+        "3 C14")
 NA_REASON={}
 
 def hooks_commits():
